@@ -392,7 +392,7 @@ concrete 2×1 problem over ℝ (canonical `A`, one nonnegative cone of dimension
 example : ∃ (keep : List Bool) (Pn : Csc ℝ) (d : ProblemData ℝ),
     ProblemData.new (⟨1, 1, #[0, 0], #[], #[]⟩ : Csc ℝ) #[1] ⟨2, 1, #[0, 2], #[0, 1], #[1, 2]⟩ #[1, 1e30]
       [ConeT.nonneg 2] true false 1e20 = .ok d ∧ d.P = Pn ∧ keep.length = 2 := by
-  have hA : C16.Canonical (⟨2, 1, #[0, 2], #[0, 1], #[1, 2]⟩ : Csc ℝ) := (C16.check_format_iff _).mp (by rfl)
+  have hA : C16.Canonical (⟨2, 1, #[0, 2], #[0, 1], #[1, 2]⟩ : Csc ℝ) := C16.check_format_canonical _ (by rfl)
   obtain ⟨keep, Pn, d, _, hl, _, _, hnew, hP, _⟩ :=
     problemdata_new_spec (⟨1, 1, #[0, 0], #[], #[]⟩ : Csc ℝ) #[1] ⟨2, 1, #[0, 2], #[0, 1], #[1, 2]⟩
       #[1, 1e30] [ConeT.nonneg 2] true 1e20 hA rfl rfl rfl
